@@ -791,14 +791,35 @@ Proof.
   - constructor.
 Qed.
 
+Lemma empty_start_ok F s start sl : Inv s -> RL s start sl -> leq s (empty_start T mode F s start sl).
+Proof.
+  intros I Hl. unfold empty_start.
+  destruct (is_empty_cl T s start (Some sl)) as [s1 e] eqn:E1.
+  destruct (is_empty_cl_ok T C s start (Some sl) s1 e I) as (L1 & _); auto. { intros l0 [= <-]; auto. }
+  assert (Inv s1) as I1 by (apply (leq_inv _ _ _ _ L1)).
+  destruct e; auto.
+  assert (leq s1 (emit (EvQStop sl) s1)) as L2 by (apply emit_ok; simpl; auto).
+  set (s2 := emit (EvQStop sl) s1) in *. assert (Inv s2) as I2 by (apply (leq_inv _ _ _ _ L2)).
+  eapply leq_trans; [exact L1|]. eapply leq_trans; [exact L2|].
+  destruct (oracle start) eqn:Eo; [|apply fail_ok; auto].
+  apply add_rule_ok; auto; [left; simpl; auto|].
+  intros Hr. split; [split; simpl|left; reflexivity].
+  - apply (RL_leq T C s1 s2 start sl I1 L2 (RL_leq T C s s1 start sl I L1 Hl) Hr).
+  - exists []. csplit; auto. constructor.
+Qed.
+
 Lemma searcher_init_ok F ans start : Inv (searcher_init T mode F ans start).
 Proof.
   unfold searcher_init.
   destruct (get_label_c T (init_state ans) start) as [s1 sl] eqn:E1.
   destruct (get_label_c_ok T C _ _ _ _ (Inv_init ans) E1) as (L1 & Hl1).
   assert (Inv s1) as I1 by (apply (leq_inv _ _ _ _ L1)).
-  assert (leq s1 (emit (EvQAdd sl) s1)) as L2 by (apply emit_ok; simpl; auto).
-  set (s2 := emit (EvQAdd sl) s1) in *. assert (Inv s2) as I2 by (apply (leq_inv _ _ _ _ L2)).
+  assert (leq s1 (emit (EvQAdd sl) s1)) as L2a by (apply emit_ok; simpl; auto).
+  assert (leq (emit (EvQAdd sl) s1) (empty_start T mode F (emit (EvQAdd sl) s1) start sl)) as L2b.
+  { apply empty_start_ok; [apply (leq_inv _ _ _ _ L2a)|apply (RL_leq T C s1 _ start sl I1 L2a Hl1)]. }
+  assert (leq s1 (empty_start T mode F (emit (EvQAdd sl) s1) start sl)) as L2 by (eapply leq_trans; eauto).
+  set (s2 := empty_start T mode F (emit (EvQAdd sl) s1) start sl) in *.
+  assert (Inv s2) as I2 by (apply (leq_inv _ _ _ _ L2)).
   assert (RL s2 start sl) as Hl2 by (apply (RL_leq T C s1 s2 start sl I1 L2 Hl1)).
   assert (leq s2 (try_verify T (add_rule T mode F) s2 start sl)) as L3
     by (apply try_verify_ok; auto; apply add_rule_ok).
